@@ -204,7 +204,7 @@ def manifest():
       ],
       'checks': checks,
       'not_applicable': na,
-      'notes': 'All checks: ./check CXX --tier quick|thorough ; replay: ./check CXX --replay FILE ; known findings in known_findings.json; see DESIGN.md.',
+      'notes': 'All checks: ./check CXX --tier quick|thorough ; replay: ./check CXX --replay FILE ; known findings and repaired defects in known_findings.json (witnesses under known/ and regress/); repairs in /repo are the unguarded fix: commits 8f3a1ec ccff44f 7b2703a 953908c 0857566 f42c5c9 89cde28 14e32ff (pinned suite 271/271 with all of them); no source hooks; seeded breaking changes from sub-agents under seeded/; see DESIGN.md, in particular section 9.',
   }
 
 
